@@ -32,11 +32,13 @@ Init == /\ n \in 1..MaxUnits /\ stale \in 0..MaxUnits /\ stale <= n /\ hadOld \i
         /\ pc = "start" /\ tmp = (IF stale = 0 THEN Absent ELSE stale)
         /\ final = (IF hadOld THEN Old ELSE Absent) /\ crashedAt = "none"
 Mark == pc = "start" /\ pc' = "marked" /\ UNCHANGED <<n, stale, hadOld, tmp, final, crashedAt>>
-RemoveOld == /\ pc = "marked" /\ pc' = "removed" /\ final' = Absent
+\* (since the repair of the concurrent store/retrieve race the old entry is moved aside only after the new one is
+\* completely written, just before the rename; in the in-place variant it is removed first, as the original code did)
+RemoveOld == /\ pc = (IF Atomic THEN "sized" ELSE "marked") /\ pc' = (IF Atomic THEN "oldAside" ELSE "removed") /\ final' = Absent
              /\ UNCHANGED <<n, stale, hadOld, tmp, crashedAt>>
 \* storeFile / the tar loop: each unit is (re)written; a stale unit is removed first (ensureStoreReady)
-WriteUnit == /\ pc \in {"removed", "writing"}
-             /\ LET have == IF pc = "removed" THEN 0 ELSE (IF Atomic THEN tmp ELSE final) IN
+WriteUnit == /\ pc \in {IF Atomic THEN "marked" ELSE "removed", "writing"}
+             /\ LET have == IF pc # "writing" THEN 0 ELSE (IF Atomic THEN tmp ELSE final) IN
                 /\ have < n
                 /\ IF Atomic THEN tmp' = have + 1 /\ UNCHANGED final
                    ELSE final' = have + 1 /\ UNCHANGED tmp
@@ -44,7 +46,7 @@ WriteUnit == /\ pc \in {"removed", "writing"}
              /\ UNCHANGED <<n, stale, hadOld, crashedAt>>
 Sized == /\ pc = "writing" /\ (IF Atomic THEN tmp ELSE final) = n /\ pc' = "sized"
          /\ UNCHANGED <<n, stale, hadOld, tmp, final, crashedAt>>
-Rename == /\ pc = "sized" /\ pc' = "renamed"
+Rename == /\ pc = (IF Atomic THEN "oldAside" ELSE "sized") /\ pc' = "renamed"
           /\ IF Atomic THEN final' = tmp /\ tmp' = Absent ELSE UNCHANGED <<tmp, final>>
           /\ UNCHANGED <<n, stale, hadOld, crashedAt>>
 Crash == /\ pc \notin {"renamed", "crashed"} /\ crashedAt' = pc /\ pc' = "crashed"
